@@ -118,6 +118,8 @@ pub struct AllCfg {
     ems: Vec<EmT>,
     /// (address, owner)
     lairs: Vec<(String, String)>,
+    /// scripted ops to emit before anything else
+    queue: Vec<Op>,
 }
 
 fn share_alphabet() -> Vec<String> {
@@ -397,12 +399,40 @@ impl Scenario for AllCfg {
         let dists = vec![DistT { addr: h.distributor.clone(), owner: OWNER.to_string(), grace_seen: None }];
         let ems = vec![EmT { addr: h.epoch_manager.clone(), owner: OWNER.to_string(), last_written: DAY_NS }];
         let lairs = vec![(h.lair.clone(), OWNER.to_string())];
-        AllCfg { cfg: cfg.clone(), h, pairs, trios, vaults, dists, ems, lairs }
+        AllCfg { cfg: cfg.clone(), h, pairs, trios, vaults, dists, ems, lairs, queue: vec![] }
     }
 
     fn gen_step(&mut self, rng: &mut Rng, _ctx: &mut Ctx) -> Option<Step> {
         let n_assets = self.h.assets.len();
         let fees_opt = |rng: &mut Rng| if rng.chance(4, 5) { Some(gen_fees(rng)) } else { None };
+        if !self.queue.is_empty() {
+            let op = self.queue.remove(0);
+            return Some(Step { op });
+        }
+        // ramp marathon on one 3-pool: a ramp towards the upper end of the range, and a NEW ramp started in
+        // the second half of the running one (the contract then stores the amplification reached so far
+        // as the start of the new ramp)
+        if !self.trios.is_empty() && rng.chance(1, 22) {
+            let t = rng.idx(self.trios.len());
+            let fut = qjson(&self.h.app, &self.trios[t].addr, &trio::QueryMsg::Config {}).ok().and_then(|c| c.get("future_amp").and_then(jnum)).unwrap_or(100) as u64;
+            let up = |fa: u64| Op::UpdTrio { trio: t, via_factory: true, fees: None, ramp: Some((fa, 10_000)) };
+            let mut q = vec![];
+            if fut.saturating_mul(10) <= 1_000_000 {
+                q.push(up(fut * 10));
+                q.push(Op::Blocks { n: 5_300 });
+                q.push(up(fut * 10));
+            } else {
+                q.push(up((fut / 10).max(1)));
+                q.push(Op::Blocks { n: 10_000 });
+                q.push(up(fut));
+                q.push(Op::Blocks { n: 5_300 });
+                q.push(up(fut));
+            }
+            _ctx.probe("ramp_marathon_scripted");
+            self.queue = q;
+            let op = self.queue.remove(0);
+            return Some(Step { op });
+        }
         let op = match rng.below(34) {
             0 | 1 => {
                 let a = rng.idx(n_assets);
@@ -470,7 +500,9 @@ impl Scenario for AllCfg {
             30 => Op::InstLair { growth: gen_share(rng), natives: rng.range(0, 3) as usize, cw20: rng.chance(1, 5) },
             31 => Op::UpdLair { which: rng.idx(self.lairs.len().max(1)), growth: if rng.chance(4, 5) { Some(gen_share(rng)) } else { None }, unbonding: if rng.chance(1, 3) { Some(rng.range(0, 3_000_000_000_000)) } else { None } },
             32 => Op::UpdCollector { take_rate: if rng.chance(5, 6) { Some(gen_share(rng)) } else { None }, active: if rng.chance(1, 3) { Some(rng.chance(1, 2)) } else { None } },
-            _ => Op::Blocks { n: *rng.pick(&[1u64, 100, 9_999, 10_000, 20_000]) },
+            // (also a little over half of the usual ramp lengths: a new ramp started in the second half of
+            // a running one stores the amplification reached so far)
+            _ => Op::Blocks { n: *rng.pick(&[1u64, 100, 9_999, 10_000, 20_000, 5_001, 5_300, 50_500]) },
         };
         Some(Step { op })
     }
